@@ -3,4 +3,5 @@ package runh
 // Harnesses lists the harness entry points of this package for native playback.
 var Harnesses = map[string]func(){
 	"History": History,
+	"Order":   Order,
 }
